@@ -1094,3 +1094,171 @@ theorem split_last_two {α : Type} (k : Nat) (l : List α) (h : l.length = k + 2
   | [r, c], _ => exact ⟨r, c, by rw [← hl, List.take_append_drop]⟩
 
 end MTIndex
+
+namespace MTIndex
+
+theorem replicate_add_two {α : Type} (a : Nat) (x : α) : List.replicate (a + 2) x = List.replicate a x ++ [x, x] := by
+  induction a with
+  | zero => rfl
+  | succ k ih => rw [show k + 1 + 2 = (k + 2) + 1 by omega, List.replicate_succ, ih]; rfl
+
+end MTIndex
+
+namespace MTIndex
+
+/-! ### gather with arbitrary leading items (index tensors included) and a basic tail -/
+
+theorem gFix_natural {α : Type} (j : Nat) (leaf : List Int → List α) : ∀ (A : List RItem) (pre : List Int),
+    gFix j leaf A pre = (gFix j (fun p => [p]) A pre).flatMap leaf
+  | [], pre => by simp [gFix]
+  | .pick p :: r, pre => by simpa [gFix] using gFix_natural j leaf r (p :: pre)
+  | .keep l :: r, pre => by
+    simp only [gFix, List.flatMap_assoc]
+    exact flatMap_congr' fun p _ => gFix_natural j leaf r (p :: pre)
+  | .adv l :: r, pre => by simpa [gFix] using gFix_natural j leaf r (advAt l j :: pre)
+
+theorem gIn_natural {α : Type} (L : Nat) (leaf : List Int → List α) : ∀ (A : List RItem) (pre : List Int),
+    gIn L leaf A pre = (gIn L (fun p => [p]) A pre).flatMap leaf
+  | [], pre => by simp [gIn]
+  | .pick p :: r, pre => by simpa [gIn] using gIn_natural L leaf r (p :: pre)
+  | .keep l :: r, pre => by
+    simp only [gIn, List.flatMap_assoc]
+    exact flatMap_congr' fun p _ => gIn_natural L leaf r (p :: pre)
+  | .adv l :: r, pre => by
+    simp only [gIn, List.flatMap_assoc]
+    exact flatMap_congr' fun j _ => gFix_natural j leaf r (advAt l j :: pre)
+
+/-- the selected (reversed) source multi-indices, with their arrangement -/
+def outerOf (A : List RItem) : Option (Gathered (List Int)) := gatherFrom (fun p => [p]) A []
+
+theorem gatherFrom_natural {α : Type} (leaf : List Int → List α) (A : List RItem) :
+    gatherFrom leaf A [] = (outerOf A).map fun o => ⟨o.shape, o.data.flatMap leaf⟩ := by
+  unfold outerOf gatherFrom
+  cases advLen A with
+  | none => rfl
+  | some o =>
+    cases o with
+    | none => simp [gIn_natural 0 leaf A []]
+    | some L =>
+      cases h : adjacent A with
+      | true => simp [gIn_natural L leaf A []]
+      | false =>
+        simp only [Bool.false_eq_true, if_false, Option.map_some, Option.some.injEq, Gathered.mk.injEq, true_and,
+          List.flatMap_assoc]
+        exact flatMap_congr' fun j _ => gFix_natural j leaf A []
+
+theorem gFix_basic {α : Type} (j : Nat) (leaf : List Int → List α) : ∀ (T : List RItem) (pre : List Int),
+    allBasic T = true → gFix j leaf T pre = gIn 0 leaf T pre
+  | [], _, _ => rfl
+  | .pick p :: r, pre, h => by
+    simpa [gFix, gIn] using gFix_basic j leaf r (p :: pre) (by simpa [allBasic_cons, RItem.basic] using h)
+  | .keep l :: r, pre, h => by
+    simp only [gFix, gIn]
+    exact flatMap_congr' fun p _ => gFix_basic j leaf r (p :: pre) (by simpa [allBasic_cons, RItem.basic] using h)
+  | .adv l :: r, pre, h => by simp [allBasic_cons, RItem.basic] at h
+
+theorem gIn_basic {α : Type} (L : Nat) (leaf : List Int → List α) : ∀ (T : List RItem) (pre : List Int),
+    allBasic T = true → gIn L leaf T pre = gIn 0 leaf T pre
+  | [], _, _ => rfl
+  | .pick p :: r, pre, h => by
+    simpa [gIn] using gIn_basic L leaf r (p :: pre) (by simpa [allBasic_cons, RItem.basic] using h)
+  | .keep l :: r, pre, h => by
+    simp only [gIn]
+    exact flatMap_congr' fun p _ => gIn_basic L leaf r (p :: pre) (by simpa [allBasic_cons, RItem.basic] using h)
+  | .adv l :: r, pre, h => by simp [allBasic_cons, RItem.basic] at h
+
+theorem gFix_append_basic {α : Type} (j : Nat) (leaf : List Int → List α) (T : List RItem) (hT : allBasic T = true) :
+    ∀ (A : List RItem) (pre : List Int), gFix j leaf (A ++ T) pre = gFix j (fun p => gIn 0 leaf T p) A pre
+  | [], pre => by simpa [gFix] using gFix_basic j leaf T pre hT
+  | .pick p :: r, pre => by simpa [gFix] using gFix_append_basic j leaf T hT r (p :: pre)
+  | .keep l :: r, pre => by
+    simp only [List.cons_append, gFix]
+    exact flatMap_congr' fun p _ => gFix_append_basic j leaf T hT r (p :: pre)
+  | .adv l :: r, pre => by simpa [gFix] using gFix_append_basic j leaf T hT r (advAt l j :: pre)
+
+theorem gIn_append_basicTail {α : Type} (L : Nat) (leaf : List Int → List α) (T : List RItem) (hT : allBasic T = true) :
+    ∀ (A : List RItem) (pre : List Int), gIn L leaf (A ++ T) pre = gIn L (fun p => gIn 0 leaf T p) A pre
+  | [], pre => by simpa [gIn] using gIn_basic L leaf T pre hT
+  | .pick p :: r, pre => by simpa [gIn] using gIn_append_basicTail L leaf T hT r (p :: pre)
+  | .keep l :: r, pre => by
+    simp only [List.cons_append, gIn]
+    exact flatMap_congr' fun p _ => gIn_append_basicTail L leaf T hT r (p :: pre)
+  | .adv l :: r, pre => by
+    simp only [List.cons_append, gIn]
+    exact flatMap_congr' fun j _ => gFix_append_basic j leaf T hT r (advAt l j :: pre)
+
+theorem advLen_append_basicTail (T : List RItem) (hT : allBasic T = true) : ∀ A : List RItem, advLen (A ++ T) = advLen A
+  | [] => by simpa using advLen_append_basic [] T hT
+  | .pick p :: r => by simpa [advLen] using advLen_append_basicTail T hT r
+  | .keep l :: r => by simpa [advLen] using advLen_append_basicTail T hT r
+  | .adv l :: r => by simp only [List.cons_append, advLen, advLen_append_basicTail T hT r]
+
+theorem adjacentFrom_basic (T : List RItem) (hT : allBasic T = true) : ∀ st : Nat, adjacentFrom st T = true := by
+  induction T with
+  | nil => intro st; rfl
+  | cons x r ih =>
+    have hr : allBasic r = true := by
+      cases x <;> simp_all [allBasic_cons, RItem.basic]
+    intro st
+    cases x with
+    | pick p => simpa [adjacentFrom] using ih hr st
+    | keep l =>
+      cases st with
+      | zero => simpa [adjacentFrom] using ih hr 0
+      | succ s => simpa [adjacentFrom] using ih hr 2
+    | adv l => simp [allBasic_cons, RItem.basic] at hT
+
+theorem adjacentFrom_append_basicTail (T : List RItem) (hT : allBasic T = true) :
+    ∀ (A : List RItem) (st : Nat), adjacentFrom st (A ++ T) = adjacentFrom st A
+  | [], st => by simp [adjacentFrom, adjacentFrom_basic T hT st]
+  | .pick p :: r, st => by simpa [adjacentFrom] using adjacentFrom_append_basicTail T hT r st
+  | .keep l :: r, 0 => by simpa [adjacentFrom] using adjacentFrom_append_basicTail T hT r 0
+  | .keep l :: r, s + 1 => by simpa [adjacentFrom] using adjacentFrom_append_basicTail T hT r 2
+  | .adv l :: r, 0 => by simpa [adjacentFrom] using adjacentFrom_append_basicTail T hT r 1
+  | .adv l :: r, 1 => by simpa [adjacentFrom] using adjacentFrom_append_basicTail T hT r 1
+  | .adv l :: r, s + 2 => by simp [adjacentFrom]
+
+theorem shapeIn_basic (L : Nat) : ∀ T : List RItem, allBasic T = true → shapeIn L T = keepDims T
+  | [], _ => rfl
+  | .pick p :: r, h => by
+    simpa [shapeIn, keepDims] using shapeIn_basic L r (by simpa [allBasic_cons, RItem.basic] using h)
+  | .keep l :: r, h => by
+    simpa [shapeIn, keepDims] using shapeIn_basic L r (by simpa [allBasic_cons, RItem.basic] using h)
+  | .adv l :: r, h => by simp [allBasic_cons, RItem.basic] at h
+
+theorem shapeIn_append_basicTail (L : Nat) (T : List RItem) (hT : allBasic T = true) :
+    ∀ A : List RItem, shapeIn L (A ++ T) = shapeIn L A ++ keepDims T
+  | [] => by simpa [shapeIn] using shapeIn_basic L T hT
+  | .pick p :: r => by simpa [shapeIn] using shapeIn_append_basicTail L T hT r
+  | .keep l :: r => by simpa [shapeIn] using shapeIn_append_basicTail L T hT r
+  | .adv l :: r => by simp [shapeIn, keepDims_append]
+
+/-- gathering with a basic tail after ARBITRARY leading items: the tail's selection under every selected leading
+multi-index, the leading arrangement unchanged -/
+theorem gatherFrom_basicTail {α : Type} (leaf : List Int → List α) (A T : List RItem) (hT : allBasic T = true) :
+    gatherFrom leaf (A ++ T) [] =
+      (outerOf A).map fun o => ⟨o.shape ++ keepDims T, o.data.flatMap fun p => gIn 0 leaf T p⟩ := by
+  unfold outerOf gatherFrom
+  rw [advLen_append_basicTail T hT A]
+  cases advLen A with
+  | none => rfl
+  | some o =>
+    cases o with
+    | none =>
+      simp only [keepDims_append, gIn_append_basicTail 0 leaf T hT A [], Option.map_some, Option.some.injEq, Gathered.mk.injEq,
+        true_and]
+      exact gIn_natural 0 _ A []
+    | some L =>
+      have hadj : adjacent (A ++ T) = adjacent A := adjacentFrom_append_basicTail T hT A 0
+      cases h : adjacent A with
+      | true =>
+        simp only [hadj, h, if_true, shapeIn_append_basicTail L T hT A, gIn_append_basicTail L leaf T hT A [], Option.map_some,
+          Option.some.injEq, Gathered.mk.injEq, true_and]
+        exact gIn_natural L _ A []
+      | false =>
+        simp only [hadj, h, Bool.false_eq_true, if_false, keepDims_append, Option.map_some, Option.some.injEq,
+          Gathered.mk.injEq, List.cons_append, true_and, List.flatMap_assoc]
+        exact flatMap_congr' fun j _ => by
+          rw [gFix_append_basic j leaf T hT A [], gFix_natural j _ A []]
+
+end MTIndex
